@@ -303,6 +303,7 @@ def job(args):
         for nm, term, want in (('None', None, 'TypeError'), ('str', 'term', 'TypeError'), ('dict', {}, 'TypeError'),
                                ('object', AObj('object'), 'TypeError'), ('function', OpaqueFn('f'), 'TypeError'),
                                ('3-tuple', 'T3', 'error'), ('(vector, matrix)', 'SWAP', 'TypeError'),
+                               ('(matrix, matrix)', 'MM', 'TypeError'), ('(vector, vector)', 'RR', 'TypeError'),
                                ('python float', Rat.atom(('x',)), 'TypeError'), ('flat python list of numbers', 'LIST', 'TypeError'),
                                ('nested python list', 'LIST2', 'TypeError'), ('CellVariable object', 'CV', 'TypeError'),
                                ('numpy scalar', 'NPS', 'TypeError'), ('0-d array', 'ARR0', 'TypeError'), ('3-d array', 'ARR3', 'TypeError')):
@@ -311,6 +312,10 @@ def job(args):
                 term = (terms['M1'], terms['R1'], terms['R2'])
             elif term == 'SWAP':
                 term = (terms['R1'], terms['M1'])
+            elif term == 'MM':
+                term = (terms['M1'], terms['M2'])
+            elif term == 'RR':
+                term = (terms['R1'], terms['R2'])
             elif term == 'LIST':
                 term = [Rat.atom(('lst', k)) for k in range(3)]
             elif term == 'LIST2':
